@@ -1883,8 +1883,9 @@ def dtype_worker(args):
             bad = None
             if u.shape != v.shape:
                 bad = "shape %s vs %s" % (u.shape, v.shape)
-            elif not k.startswith("down") and u.dtype != np.float64:
-                bad = "dtype %s instead of float64" % u.dtype
+            elif not k.startswith("down") and u.dtype.kind != "f":
+                # a density is a real number: an integer array cannot hold it
+                bad = "dtype %s for a density" % u.dtype
             else:
                 uf, vf = u.astype(np.float64), v.astype(np.float64)
                 top = float(np.nanmax(np.abs(vf))) if vf.size and \
